@@ -94,4 +94,24 @@ theorem forLoop_next_eq_foldl (xs : List α) (s : σ) (g : σ → α → σ) :
   | nil => rfl
   | cons x xs ih => simp [Py.forLoop, ih]
 
+/-- "return r at the first element satisfying p": the loop returns iff some element satisfies p -/
+theorem forLoop_ret_if (xs : List α) (p : α → Bool) (r : ρ) :
+    Py.forLoop xs () (fun (_ : Unit) x => if p x = true then Py.Step.ret r else Py.Step.next ())
+      = if xs.any p then .ret r else .done () := by
+  induction xs with
+  | nil => rfl
+  | cons x xs ih =>
+    rw [forLoop_cons]
+    by_cases h : p x = true
+    · simp [h]
+    · simp [h, ih]
+
+/-! ## dictionaries -/
+
+theorem dictGet?_cons [BEq κ] (k : κ) (p : κ × ν) (d : List (κ × ν)) :
+    Py.dictGet? (p :: d) k = if p.1 == k then some p.2 else Py.dictGet? d k := by
+  unfold Py.dictGet?
+  simp only [List.find?_cons]
+  cases p.1 == k <;> simp
+
 end Yaql.Lemmas.PyPrelude
